@@ -30,7 +30,8 @@ class Run:
         self.findings = core.load_findings()
         self.assumptions = []
         self.notes = {}
-        self.work = core.WORK / ("%s-%s" % (prop, tier))
+        sfx = "" if os.path.realpath(core.REPO) == "/repo" else "-" + os.path.basename(os.path.realpath(core.REPO))
+        self.work = core.WORK / ("%s-%s%s" % (prop, tier, sfx))
         self.work.mkdir(parents=True, exist_ok=True)
 
     # ------------------------------------------------------------- TLC on the design
